@@ -57,6 +57,15 @@ CLAIMED["C16"] = dict(
    note="Bounds: strings <= 4 bytes quick / 6 thorough; extensions of 1..2 bytes; address pool of 5 (IPv4, IPv6, IPv4-mapped, mDNS); one numeric field at a time over its digit counts. Two defects found by this check were repaired (related address with port 0 dropped by Marshal; DeepEqual irreflexive with a TCP type). Trusted: encoder, z3, fmt model for %s/%d/%v, CRC uninterpreted. Outside: longer strings, netip.ParseAddr on fully symbolic text.",
    ref="DESIGN.md §5 C16")
 
+CLAIMED["C12"] = dict(
+   text="Sequential operation sequences (GetConn, write through a handle, inbound datagram dispatched by the real connWorker, RemoveConnByUfrag, handle Close, mux Close) are executed on the real UDPMuxDefault/udpMuxedConn/sharedPacketConn over a fake socket and compared, after every step, with a reference routing table written in the harness: destination = last writer of the canonical source address, else (first-contact STUN) the connection registered for the USERNAME prefix and the source's family, else drop; byte-identical payload, true source, per-connection FIFO, canonical keys, address map and per-connection lists agree, closed/removed connections receive nothing. USERNAME bytes and payloads are symbolic.",
+   note="Bounds: one GetConn + 3 operations quick / 4 thorough, 2 ufrags, 3-4 addresses incl. the IPv4-mapped form. Concurrency is OUTSIDE: goroutines take turns at operation boundaries (one legal schedule per path). Known finding listed (write after RemoveConnByUfrag re-binds the address). Leftover table entries of a closed mux are not counted (nothing is dispatched). Trusted: encoder, z3, fake socket, sync.Pool free-list model.",
+   ref="DESIGN.md §5 C12")
+CLAIMED["C13"] = dict(
+   text="(a) reference counting: 2..3 handles from the real GetConn over one udpMuxedConn under every sequence of 4-6 Close/WriteTo/ReadFrom operations: the underlying connection is closed exactly when the last handle closes, repeated Close is idempotent, a closed handle's I/O fails with ErrClosedPipe, siblings stay usable; (b) the write-abort protocol (startWriteContext/finishWrite/abortWrite on the lock-free state word) at METHOD-ATOMIC granularity under every sequence of 4-6 calls with SetWriteDeadline succeeding or failing: no-op abort without writers, deadline cleared by the last writer, flags cleared on failed arming, exact in-flight count, no entry while an abort is pending, socket usable afterwards.",
+   note="The fine-grained interleavings of the state word (the part the property's rationale stresses), context-cancelled writes and the TCP mux flavour are OUTSIDE this claim: the encoder is sequential. Trusted: encoder, context package executed as real code, fake socket.",
+   ref="DESIGN.md §5 C13")
+
 NOT_APPLICABLE = {
  "C01": "needs two live agents, a symbolic network scheduler and a fairness (liveness) argument; a sequential encoder of single functions cannot express it (its safety half is covered by the C02/C03 lemmas)",
  "C08": "termination / unblocking of blocked goroutines and a goroutine census: no scheduler or channel model in a sequential SSA encoder",
@@ -66,8 +75,6 @@ NOT_APPLICABLE = {
 
 NOT_BUILT = {
  "C09": "check not built yet in this round (planned in DESIGN.md §5); not claimed",
- "C12": "check not built yet in this round (planned in DESIGN.md §5); not claimed",
- "C13": "check not built yet in this round (planned in DESIGN.md §5); not claimed",
  "C15": "check not built yet in this round (planned in DESIGN.md §5); not claimed",
  "C18": "check not built yet in this round (planned in DESIGN.md §5); not claimed",
 }
